@@ -9,8 +9,9 @@ context.  Clauses:
   C13.routes       one verdict per (context, name, value): parse / reparse / Property() / setProperty / style[...] /
                    cssText / parseStyle / registry, every spelling, every validation switch, inside a 2-declaration block
   C13.grammar      simple CSS 2.1 properties: verdict == ref_css21.verdict outside the don't-care set
-                   (a) all registered profiles active, CSS3 additions of Color / Basic UI are don't-care
-                   (b) a registry in which only 'CSS Level 2.1' is registered: exact
+                   at two observation points (verdict of the DOM routes; registry asked with the text as written)
+                   (a) all registered profiles active, CSS3 additions of Color / Basic UI / Box are don't-care
+                   (b) a private registry in which only 'CSS Level 2.1' is registered: exact
   C13.unknown      a name no profile defines is never valid
   C13.conjunction  declaration block / rule / sheet valid  <=>  all its declarations valid
   C13.annotates    proj (public accessors) and cssText identical with validation on and off
@@ -32,8 +33,10 @@ RULE = (
     'full cross product of (all names of cssutils.profile.knownNames + all simple CSS 2.1 properties of the reference + '
     'unknown names) x (value menu: every keyword of every simple CSS 2.1 property, numbers/lengths/percentages in every sign/zero/'
     'fraction form, colours in every form, URIs, strings, near misses, values of other grammars); per pair every spelling with <= k '
-    'deviations (token case, white space / comment at every gap the grammar has, name case, gap before the colon, priority) x '
-    'routes x round trip x validation switches x {style rule, @font-face}. One evaluation = one observed verdict compared with the '
+    'deviations (token case, white space / comment at every gap the grammar has, name case, gap before the colon, priority; which pairs '
+    'get which deviations per tier is stated in the assumptions) x routes x round trip x validation switches x {style rule, @font-face}; '
+    'blocks of two declarations (valid/invalid/unknown, same name twice) in five layouts; the 3x3 cross product of sheet and '
+    'declaration validating flags x 3 ways of adding a declaration. One evaluation = one observed verdict compared with the '
     'baseline verdict of its (context, name, value) or with the reference grammar. Distinct by construction; a pair is non-trivial '
     'when the declaration survives parsing (a verdict, not a syntax rejection, is observed)'
 )
@@ -106,7 +109,7 @@ def bounds(tier):
         'unknown_names': ref.UNKNOWN_NAMES,
         'menu_size': len(m),
         'menu_classes': sorted({e['cls'] for e in m}),
-        'pairs': len(all_names()) * len(m),
+        'pairs': (len(all_names()) + len(ref.UNKNOWN_NAMES)) * len(m),
         'deviations_k': '1 (light pairs: upper case + trailing comment only)' if q else '1 for every pair, 2 for valid pairs and class representatives',
         'gap_choices_optional': OPT_Q if q else OPT_T,
         'gap_choices_mandatory': MAN_Q if q else MAN_T,
@@ -265,7 +268,6 @@ def _depths(entry):
             d += 1
         elif t[0] == ')' and d:
             d -= 1
-        nxt = toks[i + 1]
         out.append(d)
     return out
 
@@ -853,9 +855,13 @@ def conjunction_case(res, case):
         res.violation('C13.routes', f'in-block|{layout}|{shape}', case, [fmt(x) for x in expected_leaves], [fmt(x) for x in leaves], note=text)
         return
     res.outcomes.add(h64((layout, shape, o['sheet'])))
+    res.nontrivial_keys.add(h64(('conj', layout, decls)))
     for cname, v, exp in o['containers'] + [('sheet', o['sheet'], all(o['leaves']))]:
         if v != exp:
-            res.violation('C13.conjunction', f'{layout}|{cname}|{shape}|{fmt(exp)}->{fmt(v)}', case, f'{cname}.valid == {exp} (leaves {leaves})', v, note=text)
+            # the shape of the block (which declaration is the invalid one) is incidental; a shadowed declaration is not
+            kind = 'same-name-twice|' if 'shadowed' in shape else ''
+            res.violation('C13.conjunction', f'{layout}|{cname}|{kind}{fmt(exp)}->{fmt(v)}', case, f'{cname}.valid == {exp} (leaves {leaves})', v,
+                          note=f'{shape}: {text}')  # fmt: skip
 
 
 def conjunction(res, name, verdicts, tier, menu_):
@@ -936,6 +942,7 @@ def resolution_case(res, case):
         return
     n, flag = o
     res.outcomes.add(h64(('res', how, sf, df, label, n, flag)))
+    res.nontrivial += 1  # distinct by construction; every case sets a declaration and reads the resolved flag
     if bool(flag) != bool(eff):
         res.violation('C13.resolution', f'flag|{how}|sheet={sf}|decl={df}', case, eff, flag)
     elif (n > 0) != bool(eff):
